@@ -60,6 +60,9 @@ func (tx *ATTx) commitOnAT() error {
 
 	undoLogMgr, err := undo.GetUndoLogManager(originTx.tranCtx.DBType)
 	if err != nil {
+		if rerr := originTx.report(false); rerr != nil {
+			return errors.WithStack(rerr)
+		}
 		return err
 	}
 
